@@ -380,6 +380,23 @@ pub fn record(a: &Args) -> Report {
       let mut long1 = vec![0u8; perm.len()];
       long1[1] = 2;
       sels.push((perm.clone(), long1));
+      // a REPEATED share (same x as an earlier one) that is short / long, after enough good ones
+      let mut rep_sel = perm.clone();
+      rep_sel.push(perm[0]);
+      let mut d1 = vec![0u8; rep_sel.len()];
+      d1[rep_sel.len() - 1] = 1;
+      sels.push((rep_sel.clone(), d1));
+      let mut d2 = vec![0u8; rep_sel.len()];
+      d2[rep_sel.len() - 1] = 2;
+      sels.push((rep_sel.clone(), d2));
+      if rep_sel.len() >= 3 {
+        // ... and directly after its original
+        let mut near = vec![perm[0], perm[0]];
+        near.extend(&perm[1..]);
+        let mut d3 = vec![0u8; near.len()];
+        d3[1] = 1;
+        sels.push((near, d3));
+      }
       // the FIRST share alone is the short one (with one-element secrets it then has no y at all)
       let mut first = vec![0u8; perm.len()];
       first[0] = 1;
